@@ -42,6 +42,7 @@ def _wellformed(g, o, agent, market_ids, tag="C20"):
 
 
 class FCN(Harness):
+    cvc5_recheck = True      # thorough tier: obligations re-discharged with cvc5
     name = "FCN"
     title = "real FCNAgent.submit_orders on a symbolic price history"
     what_symbolic = ("weights wF,wC,wN >= 0 (sum > 0), noise scale, margin, market prices of the history (set by real "
@@ -226,6 +227,7 @@ class MarketShareFCN(Harness):
 
 
 class MarketMaker(Harness):
+    cvc5_recheck = True      # thorough tier: obligations re-discharged with cvc5
     name = "MarketMaker"
     title = "real MarketMakerAgent.submit_orders over symbolic books of its accessible markets"
     what_symbolic = "best bids / asks of up to 2 markets (limit prices, or absent), fundamental price, spread"
@@ -297,6 +299,7 @@ class MarketMaker(Harness):
 
 
 class Arbitrage(Harness):
+    cvc5_recheck = True      # thorough tier: obligations re-discharged with cvc5
     name = "Arbitrage"
     title = "real ArbitrageAgent.submit_orders around the threshold"
     what_symbolic = "index market price, component market prices (set by real trades), threshold (>= 0), order volume v in [1,100]"
